@@ -265,18 +265,45 @@ def _for_each(tree):
     ev = _method(tree, "ForEachVariableDefinition", "evaluate")
     out += def_strs("evaluateSkeleton", [type(s).__name__ for s in _body(ev)],
                     "statement kinds of `ForEachVariableDefinition.evaluate`")
-    asg = {ast.unparse(s.targets[0]): s.value for s in _body(ev) if isinstance(s, ast.Assign)}
-    if "context.recalculate_every_time" not in asg:
+    # every simple assignment of the method, in source order (those inside try/finally included)
+    assigns = sorted((n for n in ast.walk(ev) if isinstance(n, ast.Assign) and len(n.targets) == 1),
+                     key=lambda n: (n.lineno, n.col_offset))
+    order = [ast.unparse(n.targets[0]) for n in assigns]
+    FLAG = "context.recalculate_every_time"
+    flag_asg = [n for n in assigns if ast.unparse(n.targets[0]) == FLAG]
+    if not flag_asg:
         raise PinError("`context.recalculate_every_time = …` is gone from ForEachVariableDefinition.evaluate")
-    if "ret.repeat" not in asg:
+    rep_asg = [n for n in assigns if ast.unparse(n.targets[0]) == "ret.repeat"]
+    if len(rep_asg) != 1:
         raise PinError("`ret.repeat = …` is gone from ForEachVariableDefinition.evaluate")
-    out += def_bool("forEachRecalculates", _const(asg["context.recalculate_every_time"], "recalculate"),
-                    "context.recalculate_every_time = " + ast.unparse(asg["context.recalculate_every_time"]))
-    out += def_bool("forEachRepeat", _const(asg["ret.repeat"], "ret.repeat"),
-                    "ret.repeat = " + ast.unparse(asg["ret.repeat"]))
-    order = [ast.unparse(s.targets[0]) for s in _body(ev) if isinstance(s, ast.Assign)]
-    out += def_strs("evaluateAssignOrder", order, "assignment order in evaluate (the flag is set before the expression is rendered)")
-    out += def_str("evaluateRet", ast.unparse(asg.get("ret")) if "ret" in asg else "", "ret = …")
+    ret_asg = [n for n in assigns if ast.unparse(n.targets[0]) == "ret"]
+    if len(ret_asg) != 1:
+        raise PinError("`ret = …` changed in ForEachVariableDefinition.evaluate")
+    out += def_bool("forEachRecalculates", _const(flag_asg[0].value, "recalculate"),
+                    FLAG + " = " + ast.unparse(flag_asg[0].value))
+    out += def_bool("forEachRepeat", _const(rep_asg[0].value, "ret.repeat"),
+                    "ret.repeat = " + ast.unparse(rep_asg[0].value))
+    # Is the flag put back once the expression has been rendered?  Required shape:
+    #   <saved> = context.recalculate_every_time   (before the flag is switched on)
+    #   try: ret = <render>   finally: context.recalculate_every_time = <saved>
+    restored = False
+    trys = [s for s in _body(ev) if isinstance(s, ast.Try)]
+    if trys:
+        t = trys[0]
+        in_try = any(n is ret_asg[0] for b in t.body for n in ast.walk(b))
+        fin = [n for b in t.finalbody for n in ast.walk(b) if isinstance(n, ast.Assign)
+               and ast.unparse(n.targets[0]) == FLAG and isinstance(n.value, ast.Name)]
+        if in_try and len(fin) == 1 and not t.handlers and not t.orelse:
+            saved = fin[0].value.id
+            saves = [n for n in assigns if ast.unparse(n.targets[0]) == saved and ast.unparse(n.value) == FLAG
+                     and n.lineno < flag_asg[0].lineno]
+            on_before_try = flag_asg[0].lineno < t.lineno
+            restored = len(saves) == 1 and on_before_try and len(flag_asg) == 2
+    out += def_bool("forEachFlagRestored", restored,
+                    "try: ret = … finally: context.recalculate_every_time = <value saved before it was switched on>")
+    out += def_strs("evaluateAssignOrder", order,
+                    "assignment order in evaluate (the flag is set before the expression is rendered and reset right after it)")
+    out += def_str("evaluateRet", ast.unparse(ret_asg[0].value), "ret = …")
     typechecks = [ast.unparse(s.test) for s in _body(ev) if isinstance(s, ast.If)]
     out += def_strs("evaluateTypeCheck", typechecks, "guard of evaluate")
     rets = [ast.unparse(s) for s in _body(ev) if isinstance(s, ast.Return)]
